@@ -27,7 +27,7 @@ type Profile struct {
 	ErrHeavy    bool            // favour error results, error converters, error getters and error hooks (C07)
 }
 
-var fieldNames = []string{"ID", "Name", "Status", "Val", "Cat", "Score", "Tags", "Items", "Nested", "Count", "Flag", "Data", "Id", "id", "name", "NAME", "val", "Ptr", "Extra", "Zed"}
+var fieldNames = []string{"_", "ID", "Name", "Status", "Val", "Cat", "Score", "Tags", "Items", "Nested", "Count", "Flag", "Data", "Id", "id", "name", "NAME", "val", "Ptr", "Extra", "Zed"}
 var nonASCIINames = []string{"Ünit", "ünit", "Kelvin", "Kelvin", "ſet", "Set"}
 
 // groupOf maps a type kind to its conversion-relation group.
@@ -135,6 +135,12 @@ func GenStructPair(t *rapid.T, pf Profile, idx int) (src, dst StructDecl) {
 	for i := 0; i < n; i++ {
 		name := rapid.SampledFrom(names).Draw(t, "fname")
 		a := rapid.SampledFrom(atoms).Draw(t, "ftype")
+		if name == "_" {
+			// a blank field on both sides: it can be neither read nor written
+			addS(mk(name, a))
+			addD(mk(name, a))
+			continue
+		}
 		switch k := rapid.IntRange(0, 99).Draw(t, "slot"); {
 		case k < 35: // same name, same type
 			addS(mk(name, a))
@@ -204,7 +210,11 @@ func GenStructPair(t *rapid.T, pf Profile, idx int) (src, dst StructDecl) {
 			if rapid.IntRange(0, 4).Draw(t, "gcase") == 0 {
 				dn = strings.ToUpper(gname)
 			}
-			addD(mk(dn, a))
+			da := a
+			if rapid.IntRange(0, 2).Draw(t, "grel") == 0 {
+				da = rapid.SampledFrom(byGroup[groupOf(a.Kind)]).Draw(t, "gdst")
+			}
+			addD(mk(dn, da))
 		}
 	}
 	if len(dst.Fields) == 0 {
@@ -359,6 +369,14 @@ func knownMembers(home string, forSource bool) []member {
 		}
 	case "ext.Inner2", "*ext.Inner2":
 		ms = []member{{"A", "int64"}, {"B", "ext.MyStr"}, {"D", "int"}}
+	case "LInnerG", "ext.InnerG":
+		ms = []member{{"A", "int"}, {"C", "int"}, {"PB", "string"}}
+	case "oh.Rec":
+		ms = []member{{"A", "int"}, {"B", "string"}}
+	case "oh.Rec2":
+		ms = []member{{"A", "int64"}, {"B", "string"}}
+	case "LForeign":
+		ms = []member{{"A", "int"}, {"B", "string"}, {"D", "ext.MyInt"}}
 	case "ext.Cat", "*ext.Cat":
 		ms = []member{{"Name", "string"}}
 		if forSource {
@@ -402,7 +420,7 @@ func structMembers(s StructDecl, forSource bool, nested bool) []member {
 		if fname == "" { // embedded: the member is named after its type
 			fname = strings.TrimPrefix(f.Home[strings.LastIndex(f.Home, ".")+1:], "*")
 		}
-		if s.Pkg == "ext" && !isExportedName(fname) {
+		if s.Pkg == "ext" && !isExportedName(fname) || fname == "_" {
 			continue
 		}
 		ms = append(ms, member{fname, f.Home})
@@ -616,6 +634,7 @@ func GenProg(t *rapid.T, pf Profile) *Prog {
 			if pf.Notations {
 				GenNotations(t, &m, pr.s, pr.d, uf, pf)
 			}
+			m.TogglesLast = rapid.IntRange(0, 3).Draw(t, "togglesLast") == 0
 			if pf.Hooks && !m.Reverse {
 				eff := EffectiveOpts(it.Opts, m.Opts)
 				for _, kind := range []string{"preprocess", "postprocess"} {
